@@ -24,7 +24,11 @@ CHECKS['C19'] = {
             'and cookie over 5 resources x 6 request forms; keepstore remoteProxy.Get against a recording Keep service. A case is non-trivial when '
             'at least one token is in Arvados format (v2 or legacy) and, at the wire levels, at least one forwarded request was captured and '
             'scanned; distinct = fingerprint of (tokens, cluster ids, resolutions, operation/route). About 4 % of the cases lie in the region of '
-            'the known finding c19-40char-nonhex-secret (secret of exactly 40 non-hex characters).',
+            'the known finding c19-40char-nonhex-secret (secret of exactly 40 non-hex characters). Round 2: the local lookup of a bare token '
+            'answers 200 / 401 / 403 (valid, scope-restricted) / 404 / 422 / 429 / 500 / 502 / 503 / connection error (stub backend, Rails '
+            'stub dropping the connection, and ten behaviours of the in-memory database incl. restricted scopes, unparsable or NULL scopes, '
+            'failing iteration, bad connection, no connection); only 401 may lead to pass-through. Legacy-handler requests arrive with '
+            'Content-Length, chunked (generated chunk sizes, ContentLength -1), Content-Length 0, or as HTTP/1.0.',
     'assumptions': [
         'reference salt = hex HMAC-SHA1(key=secret, msg=remote id); token grammar (v2/<uuid>/<secret>[/...], legacy [0-9a-z]{41,}) restated in vcommon/c19',
         'RailsAPI, PostgreSQL (one SELECT of validateAPItoken), the remote API server and the remote Keep service are loopback stubs; '
@@ -33,6 +37,8 @@ CHECKS['C19'] = {
         'characters, and is skipped otherwise (about 4 % of token instances); hits are confirmed against a control request with rotated secrets',
         '40 hex digits with upper-case letters: either treatment (salt / not a salt) accepted',
         '"not forwarded" (fail closed) is accepted at the legacy-handler and keepstore levels except for tokens the property requires to be forwarded',
+        'legacy handler: opaque tokens that the local database knows (or whose lookup fails) may be forwarded unchanged (property text) or salted from the resolved form (implementation), or refused',
+        'after a failed lookup (neither 200 nor 401) anything forwarded that does not contain the raw token is accepted',
         'not driven: ContainerRequestCreate to a remote (hands over a runtime token by design), legacy collection-by-PDH fan-out, client-supplied reader_tokens in the legacy path',
     ],
     'technique': 'property-based testing (rapid) with an independent reference forwarding model and a raw-byte disclosure scanner',
